@@ -292,6 +292,19 @@ def r5(ctx, facts, cfg):
                 for l in lams:
                     if l.name.endswith(x["lambda"]):
                         lam = l
+    if lam is None:
+        # the predicate as a (static) member function of the worker handed to find_if by name
+        named = set()
+        for c in finds:
+            if len(c.get("args", [])) >= 3:
+                for x in walk(c["args"][2]):
+                    if x["k"] == "DeclRefExpr" and x.get("dk") in ("CXXMethod", "Function") and x.get("name"):
+                        named.add(x["name"])
+        if len(named) == 1:
+            cand = [x for x in facts.fns if x.config == cfg and x.name == list(named)[0]]
+            if len(cand) == 1:
+                lam = cand[0]
+                pred_vars = {None}
     if lam is None or len(pred_vars) != 1:
         raise AnalysisBroken("_cleanup_invalidated_thread_contexts: removal predicate lambda not identified")
     # removed element / erased element come from find_if(pred)
